@@ -12,7 +12,7 @@ from odata_query.grammar import ODataLexer, ODataParser
 from odata_query.sql import AstToSqliteSqlVisitor
 
 COLS = {"a": [None, -1, 0, 1, 2, 7], "b": [None, -2, 0, 1, 3], "x": [None, -1.5, -0.5, 0.5, 1.5, 2.0],
-        "s": [None, "", "a", "A", "ab", "o'r", "%", "_", "a%b", "xaby"], "t": [None, "", "a", "b", "%", "ab"],
+        "s": [None, "", "a", "A", "ab", "o'r", "%", "_", "a%b", "xaby", " a", "a ", " a b "], "t": [None, "", "a", "b", "%", "ab"],
         "d": [None, "2020-01-02T10:20:30", "1999-12-31T23:59:59"], "f": [None, 0, 1]}
 
 
